@@ -2,7 +2,8 @@ import IoraModel.Model.KvStore
 /-!
 # The specification of C12: a plain map with a per-key absolute expiry
 
-`Spec = Key → Option (Val × Option Epoch)`.  An entry whose expiry has passed is simply absent: `advance` prunes, so
+`Spec = Key → Option (Val × Option Epoch)`.  A TTL deadline is `now + ttl`, saturated at the last instant the clock can
+represent (`deadlineAfter`); the `live` around it only matters when the clock itself is already past that instant.  An entry whose expiry has passed is simply absent: `advance` prunes, so
 nothing that expired can ever be observed or come back.  `specStep` says what every operation of the store does to this
 map, `OutOK` what it may return, `specRead…` what every read path returns.
 -/
@@ -27,12 +28,13 @@ structure SpecSt where
 def specStep (l : Lim) (s : SpecSt) : Op → SpecSt
   | .set k v => if (validate l k v).isSome then s else { s with m := s.m.upd k (some (v, none)) }
   | .setTtl k v ttl =>
-    if ttl ≤ 0 ∨ (validate l k v).isSome then s else { s with m := s.m.upd k (some (v, some (s.now + ttl * 1000))) }
+    if ttl ≤ 0 ∨ (validate l k v).isSome then s
+    else { s with m := s.m.upd k (live s.now (some (v, some (deadlineAfter l s.now ttl)))) }
   | .setBatch kvs =>
     if batchBad l kvs then s else { s with m := kvs.foldl (fun m x => m.upd x.1 (some (x.2, none))) s.m }
   | .setBatchTtl kvs ttl =>
     if ttl ≤ 0 ∨ batchBad l kvs then s
-    else { s with m := kvs.foldl (fun m x => m.upd x.1 (some (x.2, some (s.now + ttl * 1000)))) s.m }
+    else { s with m := kvs.foldl (fun m x => m.upd x.1 (live s.now (some (x.2, some (deadlineAfter l s.now ttl))))) s.m }
   | .get _ => s
   | .remove k => { s with m := s.m.upd k none }
   | .removeWithPrefix p => { s with m := fun k => if p.isPrefixOf k then none else s.m k }
